@@ -36,7 +36,10 @@ SPEC = {
             "secrets of every method with UTF-8 lengths 31..1000 around the 32-byte key and the AES block (ASCII and multi-byte) at the root / nested / "
             "in list items / in typed lists and dicts, long strings (<= 2000) and binary values (<= 300), "
             "format options colliding with the configuration's own names (YAML root_key = a top-level / nested field name or a key of a dict value, "
-            "XML root_tag = a field name, 'item', 'config', a type word; every kind for matrix cases, three at random otherwise), "
+            "XML root_tag = a field name, 'item', 'config', a type word; every kind for matrix cases, two at random otherwise), "
+            "the FILE route save()/load() next to dumps()/loads() (all formats for matrix cases, BSON + one other otherwise) with one-field configurations "
+            "whose BSON document length starts with an ASCII white-space byte (9..13, 32, 0x120, 0x2009, 0x200a), challenge values given as DigestValue "
+            "objects with salts shorter than / equal to / longer than the digest (same challenges pass and fail after the reload), "
             "virtual/method fields, normalisation cases) plus seeded random schemas (depth <= 3, lists of schemas, config types, dynamic) with "
             "states reached by random valid assignments; cases that fit Config.v's vocabulary (int/str/bool/flag/any leaves, sub-schemas, lists "
             "of configurations, validators) reach their state by a configops history and are also evaluated by the model; non-trivial = at least "
